@@ -247,14 +247,19 @@ PROPS["C03"] = {
         "not modelled are sampled by the supervised worker only — that part is a search, not a proof",
     ],
     "assumptions": ["'moderately sized' = |line| ≤ 6, span ≤ 4, lengths ≤ 400, ≤ 16 nodes in the sampled domain"],
-    "undischarged": ["totality of the unmodelled parts of flexbox.rs and grid track sizing (sampled only)",
+    "undischarged": ["finiteness of the float results (no NaN/inf) and absence of float-induced hangs in flexbox.rs and grid track "
+                     "sizing beyond the proved loop terminations: sampled only",
                      ],
     # grid placement_total is proved (Props/C03GridTotal.lean): for explicit counts 0..B, |line| <= B, span <= B, <= N children with
     # (N+5)*(B+2) <= 16000 (e.g. B = N = 100) run returns ok: no panic, no overflow, no outOfFuel
     "level_text": "Proved: index-checked tree accessors/mutators return Err and never panic for every index and leave the state "
-                  "unchanged (C14 model); further obligations (grid placement totality, flex freeze-loop and fr-loop termination) are "
-                  "added as their models are integrated. Observed, not proved: no panic, hang, blow-up or non-finite output of the "
-                  "real code on the sampled bounded domain in release and debug builds.",
+                  "unchanged (C14 model); grid placement is total (no panic, no integer overflow, no fuel exhaustion) for explicit "
+                  "counts, lines and spans <= B and <= N children with (N+5)(B+2) <= 16000 (C03Grid.placement_total); the WHOLE grid "
+                  "program (Model/Grid.lean, every panic of the Rust an explicit outcome) cannot panic whenever the decidable "
+                  "precondition gridSafeB holds (EvalGrid.grid_noPanic_of_gridSafeB: no auto-repeat, item track indexes and absolute "
+                  "children's lines inside the track vectors); the flex freeze loop, the fr loops and the distribution loop terminate; "
+                  "zero-size auto-repeat is total. Observed, not proved: no panic, hang, blow-up or non-finite output of the real code "
+                  "on the sampled bounded domain in release and debug builds.",
     "level_note": "partial: totality of unmodelled code is sampled by a supervised worker process. Known finding: "
                   "remove_children_range panics on an out-of-range range (documented behaviour).",
     "technique": "Lean 4 termination/no-panic theorems for the modelled loops and accessors + supervised out-of-process sampling",
@@ -1004,6 +1009,14 @@ for _pid in ("C10", "C11", "C19", "C04", "C12"):
     _add_tie(_pid, "TaffyVerif.Props.TieResolve", TIE_RESOLVE)
 for _pid in ("C08", "C03"):
     _add_tie(_pid, "TaffyVerif.Props.TieGrid", TIE_GRID)
+
+# C03 (totality): the grid program cannot panic (no overflow in the checked integer code, no out-of-range track index, no
+# fuel exhaustion) whenever the decidable precondition gridSafeB holds — proved on Model/Grid.lean (computeGridLayoutE makes
+# every panic an explicit outcome)
+PROPS["C03"]["modules"] = list(PROPS["C03"]["modules"]) + [m for m in EVALGRID_MODULES if m not in PROPS["C03"]["modules"]]
+PROPS["C03"]["theorems"] = list(PROPS["C03"]["theorems"]) + [
+    "EvalGrid.grid_noPanic_of_gridSafeB", "EvalGrid.noPanic_computeGridLayoutE", "EvalGrid.gridSafeB_sound",
+    "EvalGrid.GSafe_trackSizingAlgorithmM"]
 
 HOOK_COMMITS = [
     "5207efe",
